@@ -14,6 +14,9 @@ CONSTANTS
   OutCap = 15
   Eager = FALSE
   MaxCtlQ = 1000
+  RstCodes = {8}
+  Promised = {2}
+  Pings = {1, 2, 3, 4, 5, 6, 7, 8}
   BugContES = FALSE
   BugPadCredit = FALSE
   EncodeAtEnqueue = FALSE
